@@ -46,7 +46,13 @@ pub fn uses_th(op: Op) -> bool {
 }
 
 pub fn draw_params(op: Op, max_n: u32, ctr: usize) -> P {
-  let n = if uses_n(op) { e::choose(max_n + 1) as usize } else { 0 };
+  // counts 0..=max_n and the `usize::MAX` ("unbounded") idiom
+  let n = if uses_n(op) {
+    let c = e::choose(max_n + 2);
+    if c == max_n + 1 { usize::MAX } else { c as usize }
+  } else {
+    0
+  };
   let pk = if uses_pred(op) { e::choose(4) } else { 0 };
   let th = if uses_th(op) { Val::var() } else { Val::c(0) };
   let vs = if op == Op::StartWith { (0..e::choose(3)).map(|_| Val::var()).collect() } else { vec![] };
